@@ -228,4 +228,6 @@ def generate(tier, seed):
             for k in ks:
                 for p in ps:
                     obs.append(make_ob(tname, opc, op, k, p, tier))
+    from props.corpus import corpus_ob
+    obs.append(corpus_ob("C04", "jumps", FUNCS))
     return obs
